@@ -38,6 +38,7 @@ static int upd_hline(zckDL *dl, const char *s) {
 }
 
 #define UPD_BOUNDARY "3d6b6a416f9b5"
+static int upd_transfer = 0;     /* number of the body transfer (from 1): the server picks a new boundary for every response */
 /* the server: answer the Range header `rs` ("a-b,c-d") from file B through the given body callback */
 static int upd_serve(zckDL *dl, const unsigned char *B, size_t Bl, const char *rs, wcb_t cb, size_t frag) {
     size_t rng[512][2]; int nr = 0;
@@ -58,16 +59,18 @@ static int upd_serve(zckDL *dl, const unsigned char *B, size_t Bl, const char *r
         return upd_feed(cb, dl, B + rng[0][0], rng[0][1] - rng[0][0] + 1, frag);
     }
     size_t cap = 0;
+    char bnd[64]; snprintf(bnd, sizeof bnd, "%s%d", UPD_BOUNDARY, upd_transfer);
     for(int i = 0; i < nr; i++) cap += rng[i][1] - rng[i][0] + 1 + 256;
     unsigned char *body = malloc(cap + 64); size_t bl = 0;
     for(int i = 0; i < nr; i++) {
         bl += sprintf((char *)body + bl, "\r\n--%s\r\nContent-Type: application/octet-stream\r\nContent-Range: bytes %zu-%zu/%zu\r\n\r\n",
-                      UPD_BOUNDARY, rng[i][0], rng[i][1], Bl);
+                      bnd, rng[i][0], rng[i][1], Bl);
         memcpy(body + bl, B + rng[i][0], rng[i][1] - rng[i][0] + 1); bl += rng[i][1] - rng[i][0] + 1;
     }
-    bl += sprintf((char *)body + bl, "\r\n--%s--\r\n", UPD_BOUNDARY);
+    bl += sprintf((char *)body + bl, "\r\n--%s--\r\n", bnd);
     snprintf(line, sizeof line, "Content-Length: %zu\r\n", bl);
-    int ok = upd_hline(dl, "Content-Type: multipart/byteranges; boundary=" UPD_BOUNDARY "\r\n") && upd_hline(dl, line) && upd_hline(dl, "\r\n")
+    char ct[160]; snprintf(ct, sizeof ct, "Content-Type: multipart/byteranges; boundary=%s\r\n", bnd);
+    int ok = upd_hline(dl, ct) && upd_hline(dl, line) && upd_hline(dl, "\r\n")
              && upd_feed(cb, dl, body, bl, frag);
     free(body);
     return ok;
@@ -130,6 +133,7 @@ static int upd_run(FILE *out, const char *pfx, const char *Bp, const char *Ap, c
             if(rs == NULL) { fprintf(out, " %serr=range-char", pfx); return 0; }
             upd_app(&rl, &rll, rll ? ";" : ""); upd_app(&rl, &rll, *rs ? rs : "-");
             upd_cut = (upd_drop_round == rounds) ? upd_drop_bytes : -1;     /* this transfer is cut short; the client retries */
+            upd_transfer = rounds;
             int ok = *rs ? upd_serve(dl, B, Bl, rs, zck_write_chunk_cb, frag) : 0;
             upd_cut = -1;
             free(rs);
